@@ -6,13 +6,13 @@ checks = {
    text="Runs the real decorate/restore/print pipeline through all five public entry points on every gofmt-canonical file of the toolchain source tree (quick: stratified sample) and on seeded comment/blank-line mutations of them, comparing the printed bytes with the input. Holds only on the inputs executed; witnesses are reduced and classified by dst-independent syntactic predicates so known findings never mask a new root cause.",
    note="trusts go/format (go1.23.5) as the definition of gofmt-canonical; corpus = GOROOT/src + /repo; generated inputs on which gofmt is not idempotent are inconclusive", ref="5/C01"),
  "C02": dict(level="exploration", technique="model-based history checking: text-chunk edit model + go/format vs dst list edits with Clone",
-   text="Generates commented sibling lists of all 9 kinds (two lists per file), cuts the chunks from the gofmt-canonical text, applies the same seeded edit history (swap, rotate, reverse, delete, duplicate via Clone, move between lists) to the chunk lists and to the dst node slices, and requires print(dst) == gofmt(edited text).",
+   text="Generates commented sibling lists of all 9 kinds (case clauses as switch and select clauses; varied element node types) (two lists per file), cuts the chunks from the gofmt-canonical text, applies the same seeded edit history (swap, rotate, reverse, delete, duplicate via Clone, move between lists) to the chunk lists and to the dst node slices, and requires print(dst) == gofmt(edited text).",
    note="only uniform layouts (decided from the text and gofmt) are in the domain; gofmt-non-idempotent texts are inconclusive", ref="5/C02"),
  "C04": dict(level="exploration", technique="online exactly-once monitor on the restorer's Dec hook + placement/order assertions on restored positions + accessor reflection monitor",
    text="Decorates every attachment point (found by reflection) of corpus trees with unique comments, all at once and one site at a time; checks exactly-once in the hook log and in the print, unchanged token stream, placement of Start/End/named points relative to the restored positions of the tokens and children they are named for, order within a node, dstutil.Decorations / Node.Decorations() against the node's own storage, and the round trip of gofmt-stable decorated output.",
    note="placement is asserted on restored ast positions; points without a token/child referent are order-only", ref="5/C04"),
- "C05": dict(level="exploration", technique="reference-model monitor, exhaustive over all Before/After assignments for n<=3 (n<=4 thorough) x 6 list kinds x 6 comment patterns",
-   text="Enumerates every assignment of None/NewLine/EmptyLine to Before and After of up to 3 (thorough 4) list elements for six list kinds and six Start/End line-comment / newline patterns, prints, and compares the blank-line skeleton read with go/scanner against the model written from the statement (max-combination, fresh-line reduction, explicit newlines, edge blank lines where gofmt keeps them).",
+ "C05": dict(level="exploration", technique="reference-model monitor, exhaustive over all Before/After assignments for n<=3 (n<=4 thorough) x 8 list kinds x 6 comment patterns, plus seeded longer lists",
+   text="Enumerates every assignment of None/NewLine/EmptyLine to Before and After of up to 3 (thorough 4) list elements for eight list kinds (two restored with import management) and six Start/End line-comment / newline patterns, prints, and compares the blank-line skeleton read with go/scanner against the model written from the statement (max-combination, fresh-line reduction, explicit newlines, edge blank lines where gofmt keeps them).",
    note="which list kinds keep edge blank lines is calibrated at run time by asking gofmt on plain text", ref="5/C05"),
  "C07": dict(level="exploration", technique="independent import-table oracle over re-parsed output for seeded import configurations",
    text="Builds files with seeded import-block shapes, references (each uniquely named), alias overrides and resolvers, restores with import management and checks reference binding, exact import set, distinct names, alias precedence, untouched sections and determinism on the re-parsed output.",
